@@ -980,6 +980,12 @@ impl<'p> Sim<'p> {
                     c.window = window.clamp(1000, 60000);
                 }
             }
+            Action::SetGlue { link, weak, loss_degraded } => {
+                if let Some(c) = self.world.conns.get_mut(link) {
+                    c.weak = weak;
+                    c.loss_degraded = loss_degraded;
+                }
+            }
         }
     }
 
